@@ -24,8 +24,8 @@ META = {
         "dataclass sugar is used with all fields given (python fills defaults, the lowered dict does not)",
         "user methods are pure",
     ],
-    "floor_evaluations": {"quick": 1500, "thorough": 50000},
-    "floor_nontrivial": {"quick": 300, "thorough": 8000},
+    "floor_evaluations": {"quick": 1500, "thorough": 15000},
+    "floor_nontrivial": {"quick": 300, "thorough": 4000},
     "threads": 3,
     "anchors": ["func_adl/object_stream.py", "func_adl/util_ast.py", "func_adl/ast/syntatic_sugar.py", "func_adl/type_based_replacement.py",
                 "func_adl/ast/func_adl_ast_utils.py", "func_adl/ast/aggregate_shortcuts.py", "func_adl/ast/function_simplifier.py"],
